@@ -448,6 +448,62 @@ def _patterns(maxlen=5, k=3):
     return out
 
 
+def _leaves_case(kind):
+    """get_vars / get_params / get_floats of an expression OBJECT: exactly the leaves of the tree under its own last node, also after the object has been
+    extended into a longer expression (the two share one operator list; the longer one brings in leaves of every kind the prefix does not contain)"""
+    def build(cx):
+        x, y, z = E.Var(1.5), E.Var(-0.7), E.Var(2.0)
+        p, q = E.Param(3.0), E.Param(4.0)
+        f, g = E.Float(2.5), E.Float(0.5)
+        a = x * y
+        if kind == "prefix_of_a_longer_expression":
+            a = x * y + p * f
+            b = (a + z ** 2) * q - g
+        elif kind == "prefix_of_a_prefix":
+            a0 = x * p
+            a = a0 - f
+            b = a * z
+            c = b + q * y
+        elif kind == "the_longest_expression":
+            a = (x * y + z ** 2) * q - g
+        elif kind == "prefix_then_unary":
+            a = x - f
+            b = E.exp(a) * y
+        a._vars = a._params = a._floats = None
+        cx.target(lambda e: (list(e.get_vars()), list(e.get_params()), list(e.get_floats()), list(e.get_leaves())), a)
+
+        def post(out):
+            if not out.returned:
+                return []
+            want = {"v": [], "p": [], "f": []}
+            seen = set()
+
+            def walk(n):
+                if id(n) in seen:
+                    return
+                seen.add(id(n))
+                if n.is_leaf():
+                    want["v" if n.is_variable_type() else "p" if n.is_parameter_type() else "f"].append(n)
+                else:
+                    for o in n.operands():
+                        walk(o)
+            walk(a.last_node())
+            gv, gp, gf, gl = out.value
+            same = lambda got, w: len(got) == len(w) and {id(i) for i in got} == {id(i) for i in w}
+            return [("the_variables_are_exactly_those_under_its_own_last_node", same(gv, want["v"])),
+                    ("the_parameters_are_exactly_those_under_its_own_last_node", same(gp, want["p"])),
+                    ("the_floats_are_exactly_those_under_its_own_last_node", same(gf, want["f"])),
+                    ("get_leaves_is_their_union", same(gl, want["v"] + want["p"] + want["f"]))]
+        cx.ensure(post)
+    return Case(kind, build, crosscheck=False)
+
+
+CONTRACTS.append(Contract("wntr.sim.aml.expr:expression.get_vars/get_params/get_floats/_collect_leaves", P,
+                          [_leaves_case(k) for k in ("plain", "prefix_of_a_longer_expression", "prefix_of_a_prefix", "the_longest_expression", "prefix_then_unary")],
+                          interpret_always=(E.expression._collect_leaves, E.expression.get_vars, E.expression.get_params, E.expression.get_floats,
+                                            E.expression.get_leaves, E.expression.operators)))
+
+
 class _Con(NativeModel):
     def __init__(self, tag):
         self.tag, self.name = tag, None
